@@ -105,3 +105,140 @@ Proof.
               end).
   - constructor; [|constructor]. split; [reflexivity|]. exists [], [32;73;68;58;32;49]. split; reflexivity.
 Qed.
+
+(* ======================================================================
+   Concrete Python literals (Text/PyLiteral.v): the per-value hypotheses of
+   C11_text_roundtrip become theorems for str / bytes / int values.
+   The renderer model (repr of str / bytes / int, HippoPrettyPrinter's
+   one-literal-per-line form for five or more newlines, pprint's wrapping
+   above 100 columns) and the reader model (ast.literal_eval on these literal
+   forms) are tied to CPython and to /repo by harness/props/c11.py.
+   [printable] is str.isprintable; the only fact used about it is that no
+   surrogate code point is printable (checked over all code points each run). *)
+From HV Require Import Text.PyLiteral Text.PyLiteralProofs Text.HumanTextConcrete.
+
+(* literal_eval (repr s) = s for every str (any quotes, backslashes, NULs,
+   newlines, non-BMP and surrogate code points) and every bytes value *)
+Theorem C11_repr_str_reads_back :
+  forall printable, (forall c, printable c = true -> is_sur c = false) ->
+  forall s, Forall (fun c => c < UNI_MAX) s -> read_lit (repr_str printable s) = Some (VStr s).
+Proof. exact (fun p H s Hs => read_lit_single p H false s Hs). Qed.
+Print Assumptions C11_repr_str_reads_back.
+
+Theorem C11_repr_bytes_reads_back :
+  forall printable, (forall c, printable c = true -> is_sur c = false) ->
+  forall b, Forall (fun c => c < 256) b -> read_lit (repr_bytes b) = Some (VBytes b).
+Proof. exact (fun p H b Hb => read_lit_single p H true b Hb). Qed.
+Print Assumptions C11_repr_bytes_reads_back.
+
+(* For every str / bytes / int value and either choice of _format_var (repr on
+   one line when the variable has a subfield serializer, _multi_line_pformat
+   otherwise): every physical line shown is newline-free, non-blank once
+   stripped, does not end in a backslash, does not start with an opening
+   bracket or a hash (lines_ok'); the stripped concatenation of the lines is not
+   taken for a replacement token, a vector or a UUID (unsniffed); and the
+   literal reader returns the value. *)
+Theorem C11_literal_value_roundtrip :
+  forall printable, (forall c, printable c = true -> is_sur c = false) ->
+  forall ser v, wf_val v = true ->
+    lines_ok' (render_val printable ser v)
+    /\ unsniffed (concat (map strip (render_val printable ser v)))
+    /\ read_lit (concat (map strip (render_val printable ser v))) = Some v.
+Proof. exact render_val_ok. Qed.
+Print Assumptions C11_literal_value_roundtrip.
+
+(* The round trip with NO hypothesis about values: for every message whose
+   variables are Python str / bytes / int values (wf_val: code points below
+   0x110000, bytes below 256, ints CPython agrees to print), shown in plain form
+   (beautify off), with any number of block lists - empty ones included -,
+   blocks and variables, under the structural conditions plain_msg (message,
+   block and variable names are non-empty words, block names and the variable
+   names of one block are distinct, flags below 2048, block suffix / header
+   comments as the formatter writes them): parsing the text, in either mode and
+   whatever the other oracles do, returns exactly the message, evaluating nothing. *)
+Theorem C11_text_roundtrip_concrete :
+  forall printable, (forall c, printable c = true -> is_sur c = false) ->
+  forall read_vec read_uuid repl eval_fn has_ser pack block_suffix hdr_comments safe m,
+    plain_msg block_suffix hdr_comments m ->
+    from_human pval read_lit read_vec read_uuid repl eval_fn VNone has_ser pack safe
+      (to_human pval (c_present printable has_ser) block_suffix hdr_comments m) = OMsg pval m [].
+Proof. exact text_roundtrip_concrete. Qed.
+Print Assumptions C11_text_roundtrip_concrete.
+
+(* Mixed form, for any value type embedding the three kinds and any literal
+   reader extending the modelled one: a variable shown plain by the modelled
+   renderer needs no hypothesis; every other variable (packed =| forms, uuid,
+   vector, float, replacement token ...) keeps exactly the abstract hypotheses
+   var_ok of C11_text_roundtrip (cvar_ok is the disjunction of the two). *)
+Theorem C11_text_roundtrip_mixed :
+  forall printable, (forall c, printable c = true -> is_sur c = false) ->
+  forall (val : Type) (emb : pval -> val) (read_lit_v : str -> option val),
+    (forall s v, read_lit s = Some v -> read_lit_v s = Some (emb v)) ->
+  forall read_vec read_uuid repl eval_fn vnone has_ser pack present block_suffix hdr_comments safe m,
+    cwf_msg printable val emb read_lit_v read_vec read_uuid repl vnone has_ser pack present block_suffix hdr_comments m ->
+    from_human val read_lit_v read_vec read_uuid repl eval_fn vnone has_ser pack safe
+      (to_human val present block_suffix hdr_comments m) = OMsg val m [].
+Proof. exact text_roundtrip_mixed. Qed.
+Print Assumptions C11_text_roundtrip_mixed.
+
+(* the block suffixes to_human_string writes (none, or the Variable marker)
+   satisfy the suffix condition of plain_msg for every block name *)
+Theorem C11_std_suffix_ok : forall is_variable bn, suffix_ok (std_suffix is_variable) bn.
+Proof. exact std_suffix_ok. Qed.
+Print Assumptions C11_std_suffix_ok.
+
+(* The same two statements with NO oracle premise left: [py_printable] is the
+   table regenerated on every run from str.isprintable of the interpreter under
+   test (gen/C11_printable_gen.v; its no-surrogate obligation is discharged by
+   computation there). *)
+From HVgen Require Import C11_printable_gen.
+
+Theorem C11_literal_value_roundtrip_cpython :
+  forall ser v, wf_val v = true ->
+    lines_ok' (render_val py_printable ser v)
+    /\ unsniffed (concat (map strip (render_val py_printable ser v)))
+    /\ read_lit (concat (map strip (render_val py_printable ser v))) = Some v.
+Proof. exact (render_val_ok py_printable C11_gen_printable_nosur). Qed.
+Print Assumptions C11_literal_value_roundtrip_cpython.
+
+Theorem C11_text_roundtrip_cpython :
+  forall read_vec read_uuid repl eval_fn has_ser pack block_suffix hdr_comments safe m,
+    plain_msg block_suffix hdr_comments m ->
+    from_human pval read_lit read_vec read_uuid repl eval_fn VNone has_ser pack safe
+      (to_human pval (c_present py_printable has_ser) block_suffix hdr_comments m) = OMsg pval m [].
+Proof. exact (text_roundtrip_concrete py_printable C11_gen_printable_nosur). Qed.
+Print Assumptions C11_text_roundtrip_cpython.
+
+(* the live table at work: e-acute and a non-BMP emoji are printable and stay raw,
+   the no-break space is not and is escaped *)
+Example C11_ex_cpython_table :
+  render_val py_printable true (VStr [233; 160; 128512]) = [[39; 233; 92; 120; 97; 48; 128512; 39]]
+  /\ read_lit [39; 233; 92; 120; 97; 48; 128512; 39] = Some (VStr [233; 160; 128512]).
+Proof. split; vm_compute; reflexivity. Qed.
+
+(* non-vacuity and regression witness: a message with a seven-line string holding
+   both quotes and a backslash before a newline, a NUL-bearing bytes value, a
+   negative int, a string wrapped above 100 columns, an empty string and an
+   empty block list satisfies plain_msg; the model prints exactly the text
+   recorded from to_human_string; the text parses back to the message *)
+Example C11_ex_concrete_hyps : plain_msg ex_no_suffix ex_no_comments ex_cmsg.
+Proof. exact ex_cmsg_plain. Qed.
+
+Example C11_ex_concrete_text : cx_to ex_cmsg = ex_ctext.
+Proof. vm_compute. reflexivity. Qed.
+
+Example C11_ex_concrete_roundtrip : cx_from true ex_ctext = OMsg pval ex_cmsg [].
+Proof. vm_compute. reflexivity. Qed.
+
+Example C11_ex_printable_hyp : forall c, ex_printable c = true -> is_sur c = false.
+Proof. exact ex_printable_nosur. Qed.
+
+(* the rendered lines of the seven-line string, and what the reader makes of a
+   literal outside the fragment (triple-quoted) and of a mixed concatenation *)
+Example C11_ex_literal_lines :
+  render_val ex_printable false (VBytes ex_bytes) = [[98;39;97;98;92;120;48;48;92;120;102;102;92;39;34;92;92;92;110;39]]
+  /\ length (render_val ex_printable false (VStr ex_s7)) = 7%nat
+  /\ read_lit [39;39;39;97;39;39;39] = None
+  /\ read_lit [39;97;39;32;98;39;99;39] = None
+  /\ read_lit [40;32;45;32;48;48;32;41;32;35;120] = Some (VInt Z0).
+Proof. repeat split; vm_compute; reflexivity. Qed.
